@@ -128,10 +128,10 @@ type Image struct {
 }
 
 type World struct {
-	Dir   string
-	Knobs Knobs
-	Prop  string
-	Sess  *engine.Session
+	Dir         string
+	Knobs       Knobs
+	Prop        string
+	Sess        *engine.Session
 	longLogSeen bool
 	// OpenFault: "log" / "data" while a statement runs whose open of that file is to fail once
 	OpenFault string
